@@ -345,7 +345,7 @@ input pending or had an output < 6; distinct by decoded-choice digest.",
     }],
     randoms: &[RandomDef {
         name: "histories",
-        cases: |t: Tier| t.pick(400_000, 60_000_000),
+        cases: |t: Tier| t.pick(1_500_000, 60_000_000),
         tape_len: 220,
         exec: None,
     }],
